@@ -2,10 +2,12 @@ package queryer
 
 import (
 	"encoding/json"
+	"errors"
 	"net/http"
 	"net/url"
 	"time"
 
+	"github.com/buildbuildio/pebbles/gqlerrors"
 	"github.com/buildbuildio/pebbles/requests"
 	"github.com/gobwas/ws"
 	"github.com/gobwas/ws/wsutil"
@@ -131,10 +133,22 @@ func (q *MultiOpQueryer) Subscribe(req *requests.Request, closeCh <-chan struct{
 			}
 
 			switch serverResp.Type {
+			case requests.SubConnectionError, requests.SubError:
+				// an error frame whose payload is a single error object (the list form is
+				// handled above): hand it on before giving up, the subscriber has to be told
+				var single struct {
+					Payload *gqlerrors.Error `json:"payload"`
+				}
+				upstreamErr := gqlerrors.NewError(gqlerrors.UndefinedError, errors.New("upstream subscription failed"))
+				if err := json.Unmarshal(msg, &single); err == nil && single.Payload != nil && single.Payload.Message != "" {
+					upstreamErr = single.Payload
+				}
+				resCh <- &requests.Response{
+					Errors: gqlerrors.ErrorList{upstreamErr},
+				}
+				return
 			case requests.SubComplete,
-				requests.SubConnectionError,
-				requests.SubConnectionTerminate,
-				requests.SubError:
+				requests.SubConnectionTerminate:
 				return
 			case requests.SubData:
 				resCh <- serverResp.Payload
